@@ -35,3 +35,11 @@ chk("C16", "exploration", "property-based testing (Hypothesis): differential eva
     "and that re-evaluation equals the reference. Search, not proof.",
     "Bounded exponents/repeat counts; errors other than TypeError/missing name leave the outcome open; None reports the default.",
     "DESIGN.md §4 C16, appendix A.5")
+chk("C18", "exploration", "property-based testing (Hypothesis): generated block configurations and event histories vs. a reference state machine (set of possible states)",
+    "A generated counter, accrual or sequence (system-wide or in a mode) is driven by generated histories of hit/step, "
+    "enable, disable, reset, restart, add/subtract/jump events and integer-ms gaps around its hit window and timeout; "
+    "after every operation the emitted hit/complete/timeout events and (enabled, completed, value) must match one "
+    "of the reference model's possible states (two orders are allowed only when an operation coincides with a timer). "
+    "Search, not proof.",
+    "One block per case; hits while the owning mode is stopped are outside the domain.",
+    "DESIGN.md §4 C18")
